@@ -3,7 +3,7 @@
 (* every explored transition is exported (ACTION_CONSTRAINT) for behaviour generation.              *)
 EXTENDS ScopeV2, Json, IOUtils, TLCExt
 T == {1, 2, 3}
-W == 1..4
+W == 1..6
 J == {1, 2}
 ScnSeq == JsonDeserialize(IOEnv.SCENARIOS)
 Scn == {ScnSeq[i] : i \in 1..Len(ScnSeq)}
